@@ -137,6 +137,10 @@ func SrvRealChild(args []string) {
 				if b != nil {
 					// deterministic modification times: all versions within one wall-clock second, a millisecond apart
 					mt := time.Unix(1700000000, int64(nput)*1000000)
+					if backend == "filesec" {
+						// whole-second modification times (what rsync, tar or touch produce): only the seconds differ
+						mt = time.Unix(1700000000+int64(nput), 0)
+					}
 					os.Chtimes(path, mt, mt)
 				}
 			}
@@ -244,7 +248,7 @@ func judgeReal(ops []string, goOut string, faultsAllowed bool) string {
 				resetNext = true
 			}
 		case "S":
-			res.reqs = append(res.reqs, &reqRec{id: len(res.reqs), path: strings.Join(p[1:], ":"), start: i, end: i})
+			res.reqs = append(res.reqs, &reqRec{id: len(res.reqs), path: strings.Join(p[1:], ":"), start: i, end: i, noHdr: true})
 			reqDown = append(reqDown, down || resetNext)
 			resetNext = false
 		}
